@@ -37,4 +37,7 @@ TEXT.update({
   "level": "Partial theorem: a refused board message writes nothing to rounds/operations/tombstones/signatures unless the round was in a cancelled signing state (lazy restart). Crash-freedom is decided by the harness: ~80 hostile messages x positions with recover(); any panic or durable change on refusal is a violation.",
   "note": "airgapped operation files and HTTP bodies are not covered in this round; byte-level fuzzing of decoders not built." + COMMON_NOTE},
 })
+TEXT["C08"] = {"technique": "Coq proof of the frame property on the node model + differential interleaving / restart / duplicate / reinit / Poll-replay histories",
+  "level": "Theorem (frame): handling a board message of round r leaves the dump and signature store of every other round untouched, for every node state and outcome. The 'function of the sub-log' statement is composed by the harness: interleavings with another round, restarts, duplicates, junk, reinit variants and a replay through the real Poll loop all reach the reference projection, and every history agrees with the model.",
+  "note": "partial: locality (the outcome for round r depends only on r's part of the state) is not yet a theorem. The reinit_dkg exception of the pinned tree was repaired (fix 6265d18)." + COMMON_NOTE}
 NOT_APPLICABLE = {}
